@@ -86,7 +86,7 @@ def draw_fs(rng):
 def cases(c):
     rng = c.rng('cases')
     out = []
-    n = 120 if c.tier == 'quick' else 4800
+    n = 120 if c.tier == 'quick' else 19200
     for cls in E.CLASSES:
         for j in range(n):
             N = int(rng.integers(16, 72))
@@ -97,12 +97,12 @@ def cases(c):
                         'NFFT': NFFT, 'cplx': int(rng.integers(0, 2)), 'kind': gen.pick(rng, ['noise', 'tones', 'ar']),
                         'fs': draw_fs(rng), 'fs2': draw_fs(rng), 'j': j})
     # the Daniell periodogram class (13th PSD class of the package): scale_by_freq clause only
-    for j in range(40 if c.tier == 'quick' else 2400):
+    for j in range(40 if c.tier == 'quick' else 9600):
         N = int(rng.integers(32, 100))
         out.append({'form': 'class', 'rel': 'scale', 'cls': 'pdaniell', 'p': {'P': int(rng.integers(1, 4))}, 'N': N,
                     'NFFT': int(N + rng.integers(0, 60)), 'cplx': int(rng.integers(0, 2)), 'kind': 'noise',
                     'fs': draw_fs(rng), 'fs2': 1.0, 'j': j})
-    for j in range(1500 if c.tier == 'quick' else 48000):
+    for j in range(1500 if c.tier == 'quick' else 192000):
         la, lb = int(rng.integers(0, 9)), int(rng.integers(0, 9))
         if la == 0 and lb == 0:
             la = 1
